@@ -217,6 +217,13 @@ eval(struct expr *expr)
 		default:
 			if (l->kind != EXPRCONST || r->kind != EXPRCONST)
 				break;
+			if ((expr->op == TDIV || expr->op == TMOD) && l->type->prop & PROPINT) {
+				/* undefined operations are not constant expressions; do not evaluate them here */
+				if (r->u.constant.u == 0)
+					break;
+				if (l->type->u.basic.issigned && l->u.constant.i == LLONG_MIN && r->u.constant.i == -1)
+					break;
+			}
 			binary(expr, expr->op, l, r);
 		}
 		break;
